@@ -177,7 +177,9 @@ pub fn pool(seed: u64) -> Vec<Call> {
         }
         Call::Dec { ty, bytes }
     });
-    let strat = prop_oneof![4 => enc, 4 => dec, 2 => stream, 1 => graph, 6 => fam, 3 => zip, 1 => big, 2 => dangling, 2 => tz];
+    // decimals that are equal as numbers and differ as text
+    let dec_text = prop::sample::select(vec!["1", "1.0", "1.00", "0", "0.000", "10", "1E+1", "-2.50", "-2.5"]).prop_map(|s| Call::Enc(TV { ty: Ty::BigDecimal, val: vmodel::Val::Str(s.to_string()), forms: vec![] }));
+    let strat = prop_oneof![4 => enc, 4 => dec, 2 => stream, 1 => graph, 6 => fam, 3 => zip, 1 => big, 2 => dangling, 2 => tz, 2 => dec_text];
     let mut r = runner(tag_seed(derive_seed(seed, "C18-pool", 0, 0), 0));
     let mut calls: Vec<Call> = (0..POOL).map(|_| strat.new_tree(&mut r).expect("pool").current()).collect();
     // the hand-written groups completely: every version as reader of every version's bytes
@@ -222,6 +224,7 @@ fn topic(c: &Call) -> String {
         found.unwrap_or_else(|| if t.any(&|x| matches!(x, Ty::Tz | Ty::DtTz)) { "time zones".into() } else if t.any(&|x| *x == Ty::Dedup) { "string table".into() } else { String::new() })
     }
     match c {
+        Call::Enc(tv) if tv.ty == Ty::BigDecimal => "decimals".into(),
         Call::Enc(tv) => of_ty(&tv.ty),
         Call::Dec { ty, .. } => of_ty(ty),
         Call::Stream(_) => "string table".into(),
